@@ -194,6 +194,11 @@ fn convert_str_indices_slow(
             || end.is_none()
     );
     let len = len(s);
+    // `start` beyond the end of the string is an empty range even when `end` clamps to the length,
+    // e.g. `"".find("", 1, -1)` is `-1` like `"".find("", 1)`.
+    if matches!(start, Some(start) if start > len.0 as i32) {
+        return None;
+    }
     let (start, end) = convert_indices(len.0 as i32, start, end);
     if start > end {
         return None;
